@@ -147,9 +147,10 @@ func C15(p *core.Program, r *core.Report) {
 		}
 		first := "return " + cand + "[0]"
 		spec := core.DecisionSpec{
-			Atoms: map[string]string{"fresh": q(`len(` + cand + `) <= 0`), "no.markup.title": q(mt + ` == ""`)},
+			Atoms: map[string]string{"fresh": q(`len(` + cand + `) <= 0`), "no.markup.title": q(mt + ` == ""`), "opt.out": q(`markup.Parser.OptOut($0.Parser)`)},
 			Rules: []core.SpecRule{
 				{Name: "already initialised: first candidate", Guard: core.Not(core.A("fresh")), Outcome: first},
+				{Name: "the page opted out (MarkupInfo is empty): document title only", Guard: core.A("opt.out"), Outcome: "add document title => " + first},
 				{Name: "markup title first, then the document title", Guard: core.Not(core.A("no.markup.title")), Outcome: "add markup title; add document title => " + first},
 				{Name: "no markup title: document title only", Guard: core.True(), Outcome: "add document title => " + first},
 			},
